@@ -125,6 +125,7 @@ def means(ctx, m):
 
 
 def proportions(ctx, m):
+    c17.GUARD[:] = [ctx, 'C10']
     for fname, tag, lo_dom in (('ci_wilson', 'wilson', 2), ('ci_z_normal', 'wald', 10)):
         ex = c17.extract(m, fname)
         if set(ex) != {0, 1, 2}:
@@ -146,8 +147,11 @@ def proportions(ctx, m):
         neg = lambda x: rename(x, {'Z': T.mk('fneg', Z)})
         zr = [T.mk('fle', zero, Z), T.mk('flt', Z, Z2)] + ([T.mk('fle', Z2, T.fconst(4))] if tag == 'wald' else [])
         m.submit('C10:%s:odd-symmetry-in-z' % tag, nokind(pcu) + nokind(pcl) + dom, T.and_(T.mk('feq', neg(lou), hil), T.mk('feq', neg(hil), lou)), key='C10:%s:odd-symmetry' % tag, timeout=120, note='lower(-z) = upper(z): no absolute value on the span')
-        m.submit('C10:%s:upper-one-sided-nested-in-level' % tag, pcu + [r2(c) for c in pcu] + dom + zr, T.mk('fle', r2(lou), lou), key='C10:%s:nested:upper' % tag, timeout=240, note='0 <= z < z\' => lower end moves down')
-        m.submit('C10:%s:lower-one-sided-nested-in-level' % tag, pcl + [r2(c) for c in pcl] + dom + zr, T.mk('fle', hil, r2(hil)), key='C10:%s:nested:lower' % tag, timeout=240, note='0 <= z < z\' => upper end moves up')
+        # monotone in z on z > 0: same formulation as C17 (both ends at once, on the two-sided path whose bound terms are the
+        # one-sided ones - identical DAGs, checked above); at z = 0 both ends are k/n, which every interval with z >= 0 contains
+        zr = [T.mk('flt', zero, Z), T.mk('flt', Z, Z2)] + ([T.mk('fle', Z2, T.fconst(4))] if tag == 'wald' else [])
+        m.submit('C10:%s:nested-in-level' % tag, pc0 + [r2(c) for c in pc0] + dom + zr, T.and_(T.mk('fle', r2(lo), lo), T.mk('fle', hi, r2(hi))), key='C10:%s:nested' % tag, timeout=240,
+                 note='0 < z < z\' => CI(z) inside CI(z\'), both ends')
         phat = T.mk('fdiv', k_f, n_f)
         m.submit('C10:%s:contains-point-estimate' % tag, pc0 + dom + [T.mk('fge', Z, zero)], T.and_(T.mk('fle', lo, phat), T.mk('fle', phat, hi)), key='C10:%s:point-estimate' % tag, timeout=120)
     m.collect()
